@@ -5,7 +5,7 @@ from ..poly import Poly, to_poly, NotPoly, range_bounds
 from .. import rules_axis as ra
 from . import c16, c17, c18, c15
 
-DECIDES = ('the control points looked up at a parameter are span - degree + i, i = 0..degree, per direction of the same direction\'s data (AG7); '
+DECIDES = ('the control points looked up at a parameter are span - degree + i, i = 0..degree, per direction of the same direction\'s data (AG7), and an optional coordinate of the public lookups and wrappers is tested with `is None`, so 0.0 is a coordinate and not a missing argument (NONE1); '
            'voxelisation runs the same occupancy worker with the same arguments serially and in parallel through the order-preserving Pool.map '
            '(AG5), the per-axis step / origin range / extent of the voxel grid belong to one axis, the origin ranges are generated from the '
            'same steps that size the voxels, and the serial branch stores exactly the predicate\'s value (VX1); the orientation test is the 2-D '
@@ -23,6 +23,8 @@ def site(fi, node=None):
 
 def check(m, run):
     c18.ag7(m, run)
+    from .. import ops_common as oc
+    oc.optional_coordinate_rule(m, run)
     c17.ag5(m, run)
     vx1(m, run)
     c16.check_is_left(m, run, 'AL3.is-left')
